@@ -242,4 +242,231 @@ theorem GInv.cmd_hold {w : World} (hp : GInv ex fr w) {p : Pid} (d : Int) (hx : 
     · intro c g _ hq; exact absurd ((queued_congr hgF g _).1 hq) (hc.nq g)
     · intro e he hea hec hb; rw [hevF] at he; exact absurd hb (hc.nt e he hea hec)
 
+
+/-! ### entering a guard wait -/
+
+theorem nodup_bounded_length : ∀ (n : Nat) (l : List Nat), l.Nodup → (∀ k ∈ l, 1 ≤ k ∧ k ≤ n) → l.length ≤ n := by
+  intro n
+  induction n with
+  | zero =>
+    intro l _ hb
+    cases l with
+    | nil => simp
+    | cons x xs => have := hb x List.mem_cons_self; omega
+  | succ n ih =>
+    intro l hnd hb
+    -- remove n+1 from l
+    have h1 : (l.filter (· ≠ n + 1)).length ≤ n := by
+      apply ih
+      · exact List.Nodup.sublist List.filter_sublist hnd
+      · intro k hk
+        have hk' := List.mem_filter.1 hk
+        have := hb k hk'.1
+        have hne : k ≠ n + 1 := by simpa using hk'.2
+        omega
+    have h2 : l.length ≤ (l.filter (· ≠ n + 1)).length + 1 := by
+      clear h1 hb ih
+      induction l with
+      | nil => simp
+      | cons x xs ihx =>
+        have hn := List.nodup_cons.1 hnd
+        by_cases hx : x = n + 1
+        · subst hx
+          have : xs.filter (· ≠ n + 1) = xs := by
+            apply List.filter_eq_self.2
+            intro a ha
+            have : a ≠ n + 1 := fun h => hn.1 (h ▸ ha)
+            simpa using this
+          rw [List.filter_cons_of_neg (by simp), this]
+          simp
+        · have := ihx hn.2
+          rw [List.filter_cons_of_pos (by simpa using hx)]
+          simp only [List.length_cons]; omega
+    omega
+
+/-- the waiting list of a guard never has more entries than there are processes -/
+theorem GInv.count_le {w : World} (hp : GInv ex fr w) {g : Nat} {gd : Guard} (hg : w.guards[g]? = some gd) :
+    gd.q.count ≤ w.procs.size := by
+  rw [← HashHeap.abs_length]
+  have : (abs gd.q).length = (keys (abs gd.q)).length := by simp [keys]
+  rw [this]
+  apply nodup_bounded_length _ _ (hp.gw g gd hg).keys_nodup
+  intro k hk
+  have := hp.gk g k ⟨gd, hg, hk⟩
+  exact ⟨by omega, this.2.1⟩
+
+theorem queued_set! {w : World} {g : Nat} {gd : Guard} (hg : w.guards[g]? = some gd) (gd' : Guard) (g' k : Nat) :
+    queued { w with guards := w.guards.set! g gd' } g' k ↔ if g' = g then k ∈ keys (abs gd'.q) else queued w g' k := by
+  have hsz := guards_lt_of_some' hg
+  unfold queued
+  simp only [Array.set!_eq_setIfInBounds, Array.getElem?_setIfInBounds]
+  by_cases h : g' = g
+  · subst h
+    simp only [if_true, hsz]
+    constructor
+    · rintro ⟨x, h1, h2⟩; cases h1; exact h2
+    · intro h2; exact ⟨_, rfl, h2⟩
+  · have : ¬ g = g' := fun e => h e.symm
+    simp only [this, if_false, h]
+where
+  guards_lt_of_some' {w : World} {g : Nat} {gd : Guard} (hg : w.guards[g]? = some gd) : g < w.guards.size := by
+    rcases Nat.lt_or_ge g w.guards.size with h | h
+    · exact h
+    · rw [Array.getElem?_eq_none h] at hg; cases hg
+
+/-- an exempt process is put on a waiting list -/
+theorem GInv.enqueueEx {w : World} {p : Pid} (hp : GInv (exAdd ex p) fr w) {g : Nat} {gd : Guard} (hg : w.guards[g]? = some gd)
+    (gd' : Guard) (hwf : GWF gd'.q) (hlt : p < w.procs.size)
+    (hkeys : ∀ k, k ∈ keys (abs gd'.q) ↔ k = p + 1 ∨ k ∈ keys (abs gd.q)) :
+    GInv (exAdd ex p) fr { w with guards := w.guards.set! g gd' } := by
+  have hq : ∀ g' k, queued { w with guards := w.guards.set! g gd' } g' k → k = p + 1 ∨ queued w g' k := by
+    intro g' k h
+    rw [queued_set! hg] at h
+    split at h
+    · rename_i hgg; subst hgg
+      rcases (hkeys k).1 h with h' | h'
+      · exact Or.inl h'
+      · exact Or.inr ⟨gd, hg, h'⟩
+    · exact Or.inr h
+  have hexp : exAdd ex p (p + 1 - 1) := Or.inr (by simp)
+  refine { hp with gw := ?_, gk := ?_, gr := ?_, gkc := ?_ }
+  · intro g' gd'' h'
+    simp only [Array.set!_eq_setIfInBounds, Array.getElem?_setIfInBounds] at h'
+    split at h'
+    · split at h'
+      · cases h'; exact hwf
+      · cases h'
+    · exact hp.gw g' gd'' h'
+  · intro g' k h
+    rcases hq g' k h with rfl | h'
+    · exact ⟨Nat.succ_ne_zero p, hlt, fun hx => absurd hexp hx⟩
+    · exact hp.gk g' k h'
+  · intro e he hgr
+    obtain ⟨h1, h2⟩ := hp.gr e he hgr
+    refine ⟨h1, fun hx => ?_⟩
+    obtain ⟨g', h3, h4⟩ := h2 hx
+    refine ⟨g', h3, fun hqq => ?_⟩
+    rcases hq g' _ hqq with h' | h'
+    · exact hx (h' ▸ hexp)
+    · exact h4 h'
+  · intro c g' hc k h hx
+    rcases hq g' k h with rfl | h'
+    · exact absurd hexp hx
+    · exact hp.gkc c g' hc k h' hx
+
+/-- … and gets the RESOURCE awaitable -/
+theorem GInv.addGuardAwaitEx {w : World} {p : Pid} (hp : GInv (exAdd ex p) fr w) (g : Nat) (f : Frame)
+    (hfr : fr p = some f) (hgf : isGuardFrame f = true) (haw : guardAw w p = []) (hlt : p < w.procs.size) :
+    GInv (exAdd ex p) fr (addAwait w p (.guard g)) := by
+  have hpr : ∀ x, ((addAwait w p (.guard g)).proc x).awaits = if x = p then .guard g :: (w.proc x).awaits else (w.proc x).awaits := by
+    intro x; unfold addAwait; rw [modProc_proc]
+    by_cases hx : x = p
+    · subst hx; simp [hlt]
+    · simp [hx]
+  have hbl : ∀ x, ((addAwait w p (.guard g)).proc x).blocked = (w.proc x).blocked := by
+    intro x; unfold addAwait; rw [modProc_proc]; split
+    · rename_i h; rw [h.1]
+    · rfl
+  have hsub : ∀ x a, a ∈ (w.proc x).awaits → a ∈ ((addAwait w p (.guard g)).proc x).awaits := by
+    intro x a ha; rw [hpr]; split
+    · exact List.mem_cons_of_mem _ ha
+    · exact ha
+  refine { hp with gsz := by simpa [addAwait] using hp.gsz, gk := ?_, ga := ?_, gfb := ?_, gr := ?_ }
+  · intro g' k hq
+    obtain ⟨h1, h2, h3⟩ := hp.gk g' k hq
+    exact ⟨h1, by simpa [addAwait] using h2, fun hx => hsub _ _ (h3 hx)⟩
+  · intro x
+    unfold guardAw; rw [hpr]
+    by_cases hx : x = p
+    · subst hx
+      right
+      refine ⟨g, f, hfr, hgf, ?_⟩
+      simp only [if_true, List.filter_cons, isGuardA]
+      have : (w.proc x).awaits.filter isGuardA = [] := haw
+      rw [this]
+    · rw [if_neg hx]; exact hp.ga x
+  · intro x hx hb
+    have hxp : x ≠ p := fun h => hx (Or.inr h)
+    rw [hbl] at hb
+    unfold guardAw; rw [hpr, if_neg hxp]
+    exact hp.gfb x hx hb
+  · intro e he hgr
+    obtain ⟨h1, h2⟩ := hp.gr e he hgr
+    refine ⟨h1, fun hx => ?_⟩
+    obtain ⟨g', h3, h4⟩ := h2 hx
+    exact ⟨g', hsub _ _ h3, h4⟩
+
+
+/-- the guard record after the caller has been enqueued -/
+def enterGuard (gd : Guard) (q' : HH) (p : Pid) (d : Demand) : Guard :=
+  { gd with q := q', demands := (p + 1, d) :: gd.demands.filter (·.1 ≠ p + 1) }
+
+/-- entering a guard wait and suspending: the caller (clean, existing, not exempt) is enqueued on `g`, awaits `g`, and its
+    frame is the guard-wait frame `f`; for the guard of a condition `f` must be `cond_wait` -/
+theorem GInv.enterBlock {w : World} (hp : GInv ex fr w) {p : Pid} (g : Nat) (d : Demand) (f : Frame) (hx : ¬ ex p)
+    (hfr : fr p = none) (hlt : p < w.procs.size) (hgf : isGuardFrame f = true)
+    (hcond : ∀ c : Nat, w.conds[c]? = some g → ∃ c', f = .condWait c') :
+    GInv ex (setFrame fr p (some f)) (block (guardWaitEnter w g p d) p f).1 := by
+  have hc := hp.clean_of_none hx hfr
+  cases hg : w.guards[g]? with
+  | none =>
+    have : guardWaitEnter w g p d = w.fail "no such guard" := by unfold guardWaitEnter; rw [hg]
+    rw [this]
+    exact (hp.fail _).block_fst p f hx hfr
+  | some gd =>
+    have hwf := hp.gw g gd hg
+    have h64 : p + 1 < 2 ^ 64 :=
+      Nat.lt_of_le_of_lt (show p + 1 ≤ w.procs.size from hlt) (Nat.lt_trans hp.gsz (by decide))
+    have hfresh : p + 1 ∉ keys (abs gd.q) := fun hk => hc.nq g ⟨gd, hg, hk⟩
+    have hroom : gd.q.count < 2 ^ gd.q.exp ∨ gd.q.exp < 31 := by
+      by_cases he : gd.q.exp < 31
+      · exact Or.inr he
+      · left
+        have h31 : gd.q.exp = 31 := by have := hwf.expLe; omega
+        rw [h31]
+        exact Nat.lt_of_le_of_lt (hp.count_le hg) hp.gsz
+    obtain ⟨q', _, hwf', hperm, heq⟩ := guardWaitEnter_spec hg hwf p d h64 hfresh hroom
+    rw [heq]
+    unfold enterWorld
+    have hkeys : ∀ k, k ∈ keys (abs q') ↔ k = p + 1 ∨ k ∈ keys (abs gd.q) := by
+      intro k
+      have : (keys (abs q')).Perm ((p + 1) :: keys (abs gd.q)) := by
+        have := hperm.map (·.key); simpa [keys] using this
+      rw [this.mem_iff]; simp
+    -- the chain, with p exempt
+    have h1 := (hp.exempt p).setFr_ex (some f) (Or.inl hc.aw)
+    have h2 := h1.enqueueEx hg (enterGuard gd q' p d) hwf' hlt hkeys
+    have h3 := h2.addGuardAwaitEx g f (setFrame_self _ _ _) hgf hc.aw hlt
+    have h4 := h3.modBlocked p (some f) (Or.inl (Or.inr rfl))
+    have hpr := block_addAwait_proc { w with guards := w.guards.set! g (enterGuard gd q' p d) } p (.guard g) f hlt
+    have hqF : ∀ g' k, queued ((addAwait { w with guards := w.guards.set! g (enterGuard gd q' p d) } p (.guard g)).modProc p
+            fun x => { x with blocked := some f }) g' k ↔
+        if g' = g then (k = p + 1 ∨ k ∈ keys (abs gd.q)) else queued w g' k := by
+      intro g' k
+      have := queued_set! hg (enterGuard gd q' p d) g' k
+      rw [← hkeys k]
+      exact this
+    refine h4.unexempt ?_ ?_ ?_ ?_ ?_ ?_ ?_
+    · intro g' hq
+      rw [hqF] at hq
+      split at hq
+      · rename_i hgg; subst hgg
+        show Await.guard g' ∈ ((block _ p f).1.proc p).awaits
+        rw [(hpr p).1, if_pos rfl]; exact List.mem_cons_self
+      · exact absurd hq (hc.nq g')
+    · intro hb; exfalso; apply hb
+      show ((block _ p f).1.proc p).blocked = _
+      rw [(hpr p).2, if_pos rfl, setFrame_self]
+    · intro e he hgr hb; exact absurd hb (hc.ng e he hgr)
+    · intro a ha b hb h1' _ hba _; exact absurd hba (hc.ng a ha h1')
+    · intro e he hea hb; exact absurd hb (hc.ng e he (Or.inr hea))
+    · intro c g' hcg hq
+      rw [hqF] at hq
+      split at hq
+      · rename_i hgg; subst hgg
+        obtain ⟨c', hc'⟩ := hcond c hcg
+        exact ⟨c', by rw [setFrame_self, hc']⟩
+      · exact absurd hq (hc.nq g')
+    · intro e he hea hec hb; exact absurd hb (hc.nt e he hea hec)
+
 end CimbaModel.Sim.S3
